@@ -976,6 +976,14 @@ func poolConf(tier string) (p pool) {
 			confSc("conf+failover", f, scriptConfFailover(), k, defaultFaults...),
 		)
 	}
+	// a learner whose promotion committed without reaching it is asked for its vote (it grants: a
+	// learner may already have been promoted without knowing)
+	for _, f := range []feat{syncF, asyncF, asyncPvF} {
+		lv := ddScn("learner-votes", 2, ids(1), f, seq(camp(1), prop(1), isolate(2), conf(1, 0), crash(1, 0), heal(), camp(1), prop(1), crash(2, 0), camp(1), prop(1)), k, defaultFaults...)
+		lv.Learners = []uint64{2}
+		lv.ConfMenu = []ConfSpec{{Changes: "v2"}}
+		p.dd = append(p.dd, lv)
+	}
 	// the last voter is asked to remove itself: the application cancels the committed change
 	for _, f := range []feat{syncF, asyncF} {
 		p.dd = append(p.dd, confSc("remove-last-voter", f, seq(camp(1), conf(1, mRemove3), prop(1), conf(1, mV1Remove2), prop(1), conf(1, mRemove1), prop(1), conf(1, mAddVoter4), prop(1)), k, defaultFaults...))
